@@ -6,6 +6,7 @@ out=/tmp/seeded/results.txt; : > $out
 for d in /verif/seeded/*/; do
   id=$(basename $d); prop=${id:0:3}
   [ -f $d/check_with ] && prop=$(cat $d/check_with)
-  r=$(/verif/bin/try_seeded.sh $id $prop quick)
+  r=$(SKIP_REBUILD=1 /verif/bin/try_seeded.sh $id $prop quick)
   echo "$r" | tee -a $out
 done
+( cd /verif && ./check build >/dev/null 2>&1 ); echo "all done; clean rebuild done" >> $out
